@@ -155,6 +155,9 @@ struct Run {
   struct ListEv { int64_t t; int kind; uint32_t seq; };      // kind 0 same list, 1 changed list, 2 reinit
   std::vector<ListEv> srv_list_events;
   struct ActiveEv { uint32_t seq; std::vector<int> list; };
+  std::vector<std::pair<int64_t, int64_t>> stalls;          // (from, to) virtual-clock jumps during which the application did not run its loop
+  struct CookieCtl { int64_t t; int server; int on; };
+  std::vector<CookieCtl> cookie_ctl;
   std::vector<ActiveEv> active_hist;                        // configured server list (indices, configuration order) over time
   int pick_kind(int64_t a) const;
   void read_effective();
